@@ -26,6 +26,9 @@ pub struct Dir {
 pub enum Elem {
     Text(String),
     D(Dir),
+    /// a multi-line-capable directive without prefix (0-based line): an error in every mode but
+    /// clean, which drops the line and carries on
+    ErrLine(usize),
 }
 
 /// `BufRead::lines` semantics: split at `\n`, strip one trailing `\r`, no final empty line.
@@ -128,7 +131,7 @@ pub fn parse(text: &str) -> (Vec<Elem>, Option<usize>) {
                             if first_err.is_none() {
                                 first_err = Some(i);
                             }
-                            out.push(Elem::Text(String::new()));
+                            out.push(Elem::ErrLine(i));
                         } else {
                             cur = Some(d);
                         }
